@@ -101,17 +101,37 @@ func (w *worker) runScript(kind string, rw *gldap.ResponseWriter, r *gldap.Reque
 					break
 				}
 			}
-		case strings.HasPrefix(st, "F"): // F<n>x<size>: n identifiable frames "<msgid>:<i>:" padded to size
+		case strings.HasPrefix(st, "F") || strings.HasPrefix(st, "E") || strings.HasPrefix(st, "X"):
+			// F<n>x<size>: n identifiable frames "<msgid>:<i>:" padded to size, as SearchResultDone;
+			// E: as SearchResultEntry (identity in the DN); X: entry, done, general response in turn
 			var n, size int
-			fmt.Sscanf(st, "F%dx%d", &n, &size)
+			fmt.Sscanf(st[1:], "%dx%d", &n, &size)
 			for i := 0; i < n; i++ {
 				diag := fmt.Sprintf("%d:%d:", msgid, i)
 				if len(diag) < size {
 					diag += strings.Repeat("p", size-len(diag))
 				}
-				d := r.NewSearchDoneResponse(gldap.WithResponseCode(gldap.ResultSuccess))
-				d.SetDiagnosticMessage(diag)
-				if err := rw.Write(d); err != nil {
+				var resp gldap.Response
+				kindOf := 1
+				switch st[0] {
+				case 'E':
+					kindOf = 0
+				case 'X':
+					kindOf = i % 3
+				}
+				switch kindOf {
+				case 0:
+					resp = r.NewSearchResponseEntry(diag)
+				case 1:
+					d := r.NewSearchDoneResponse(gldap.WithResponseCode(gldap.ResultSuccess))
+					d.SetDiagnosticMessage(diag)
+					resp = d
+				default:
+					g := r.NewResponse(gldap.WithResponseCode(gldap.ResultSuccess), gldap.WithApplicationCode(gldap.ApplicationSearchResultDone))
+					g.SetDiagnosticMessage(diag)
+					resp = g
+				}
+				if err := rw.Write(resp); err != nil {
 					w.ev("h-write-err %d %d %d", r.ConnectionID(), r.ID, i)
 					break
 				}
@@ -285,11 +305,16 @@ func (w *worker) start(opts []string) {
 	h := func(kind string) gldap.HandlerFunc {
 		return func(rw *gldap.ResponseWriter, r *gldap.Request) { w.runScript(kind, rw, r) }
 	}
-	_ = mux.Search(h("n"))
-	_ = mux.Bind(h("n"))
-	_ = mux.Modify(h("n"))
-	_ = mux.Add(h("n"))
-	_ = mux.Delete(h("n"))
+	if o["dflt"] != "1" {
+		_ = mux.Search(h("n"))
+		_ = mux.Bind(h("n"))
+		_ = mux.Modify(h("n"))
+		_ = mux.Add(h("n"))
+		_ = mux.Delete(h("n"))
+	} else {
+		// the ordinary operations reach their handler through the mux's fall-back path
+		_ = mux.DefaultRoute(h("n"))
+	}
 	_ = mux.ExtendedOperation(h("t"), gldap.ExtendedOperationStartTLS)
 	if o["unbind"] == "1" {
 		_ = mux.Unbind(h("u"))
